@@ -199,6 +199,49 @@ class Reference:
                     f.write(t.protein + '\n')
         return paths
 
+    def features(self):
+        """What the GTF text says, parsed independently of moPepGen: (genes, txs) in file order.
+        tx: id, gene, chrom, strand, exons, cds [[s,e,frame]], utr, sec, tags, coding, span"""
+        genes, txs = [], {}
+        for line in self.gtf_lines():
+            f = line.split('\t')
+            s, e = int(f[3]) - 1, int(f[4])
+            strand = 1 if f[6] == '+' else -1
+            attrs = {}
+            tags = []
+            for a in f[8].rstrip(';').split(';'):
+                k, v = a.strip().split(' ', 1)
+                v = v.strip('"')
+                if k == 'tag':
+                    tags.append(v)
+                else:
+                    attrs[k] = v
+            if f[2] == 'gene':
+                genes.append(dict(id=attrs['gene_id'], chrom=f[0], start=s, end=e, strand=strand, txs=[]))
+                continue
+            tid = attrs['transcript_id']
+            if tid not in txs:
+                txs[tid] = dict(id=tid, gene=attrs['gene_id'], chrom=f[0], strand=strand, exons=[], cds=[], utr=[],
+                                sec=[], tags=[], coding=self.txs[tid].protein is not None, span=None)
+                next(g for g in genes if g['id'] == attrs['gene_id'])['txs'].append(tid)
+            t = txs[tid]
+            if f[2] == 'transcript':
+                t['span'] = [s, e]; t['tags'] = sorted(tags)
+            elif f[2] == 'exon':
+                t['exons'].append([s, e])
+            elif f[2] == 'CDS':
+                t['cds'].append([s, e, int(f[7])])
+            elif f[2] == 'UTR':
+                t['utr'].append([s, e])
+            elif f[2] == 'Selenocysteine':
+                t['sec'].append([s, e])
+        for t in txs.values():
+            for k in ('exons', 'cds', 'utr', 'sec'):
+                t[k].sort()
+        for g in genes:
+            g['txs'].sort()
+        return genes, list(txs.values())
+
     def as_dict(self):
         return dict(chroms=self.chroms, genes=[g.as_dict() for g in self.genes.values()],
                     txs=[t.as_dict() for t in self.txs.values()])
@@ -364,7 +407,7 @@ class Builder:
 
 
 def random_reference(r, n_genes=3, coding_p=0.7, max_exons=3, aa_len=(12, 30), nc_len=(40, 110),
-                     strands=(1, -1), sec_p=0.0, nf_p=0.0, isoform_p=0.0, utr5=(3, 12), utr3=(6, 20)):
+                     strands=(1, -1), sec_p=0.0, nf_p=0.0, isoform_p=0.0, utr5=(3, 12), utr3=(6, 20), flank_p=0.0):
     b = Builder(r)
     for _ in range(n_genes):
         strand = r.choice(strands)
@@ -373,7 +416,7 @@ def random_reference(r, n_genes=3, coding_p=0.7, max_exons=3, aa_len=(12, 30), n
             tags = []
             sec = 1 if r.random() < sec_p else 0
             seq, cs, ce, secs, prot = make_coding_tx_seq(
-                r, r.randrange(*aa_len), r.randrange(*utr5), r.randrange(*utr3), sec=sec)
+                r, r.randrange(*aa_len), r.randrange(utr5[0], utr5[1] + 1), r.randrange(utr3[0], utr3[1] + 1), sec=sec)
             if r.random() < nf_p:
                 # mRNA_end_NF: drop the stop codon and the 3'UTR
                 tags.append('mRNA_end_NF')
@@ -381,9 +424,11 @@ def random_reference(r, n_genes=3, coding_p=0.7, max_exons=3, aa_len=(12, 30), n
                 ce = len(seq)
                 secs = [x for x in secs if x + 3 <= len(seq)]
                 prot = derive_protein(seq, cs, secs)
+            fl = (r.randrange(0, 7), r.randrange(0, 7)) if r.random() < flank_p else (0, 0)
             b.add_gene(seq, strand, nex, True, cs, ce, secs, tags, prot,
-                       isoforms=1 if r.random() < isoform_p else 0)
+                       isoforms=1 if r.random() < isoform_p else 0, flank=fl)
         else:
             seq = rand_noncoding(r, r.randrange(*nc_len))
-            b.add_gene(seq, strand, nex, False)
+            fl = (r.randrange(0, 7), r.randrange(0, 7)) if r.random() < flank_p else (0, 0)
+            b.add_gene(seq, strand, nex, False, isoforms=1 if r.random() < isoform_p else 0, flank=fl)
     return b.finish()
